@@ -266,7 +266,7 @@ class FiltersSet:
             elif cname == "body":
                 cmd = commands.get_command_instance("body", ifcontrol, False)
                 self.require(cmd.extension)
-                cmd.check_next_arg("tag", c[1])
+                self.__add_match_tag(cmd, c[1])
                 if c[2].startswith(":not"):
                     comp_tag = c[2].replace("not", "")
                     negate = True
@@ -277,7 +277,7 @@ class FiltersSet:
             elif cname == "currentdate":
                 cmd = commands.get_command_instance("currentdate", ifcontrol, False)
                 self.require(cmd.extension)
-                cmd.check_next_arg("tag", c[1])
+                self.__add_match_tag(cmd, c[1])
                 cmd.check_next_arg("string", self.__quote_if_necessary(c[2]))
                 if c[3].startswith(":not"):
                     comp_tag = c[3].replace("not", "")
